@@ -389,6 +389,9 @@ Proof.
     destruct (do_check_auth _ (s_acct st) (s_now st) auths sigs cs); split; assumption.
   - destruct (negb (s_deployed st)); [split; assumption|].
     destruct (do_check_auth _ (s_acct st) (s_now st) auths sigs cs); split; assumption.
+  - destruct (negb (s_deployed st)); [split; assumption|].
+    destruct (do_check_auth _ (s_acct st) (s_now st) auths sigs _); [|split; assumption].
+    destruct ((1 <=? t) && (t <=? nsig)); split; assumption.
 Qed.
 
 Lemma swf_run c cs : forall st, swf st -> swf (run c st cs).
